@@ -193,10 +193,17 @@ def run_real(case):
             import threading
 
             def guarded_body():
+                import asyncio
+                # like a main thread: a current (not running) event loop exists
+                own = asyncio.new_event_loop()
+                asyncio.set_event_loop(own)
                 try:
                     body()
                 except BaseException as ex:  # noqa: BLE001  (re-raised below)
                     box["exc"] = ex
+                finally:
+                    asyncio.set_event_loop(None)
+                    own.close()
             th = threading.Thread(target=guarded_body, daemon=True)
             th.start()
             th.join(60)
